@@ -46,6 +46,8 @@ type writeRec struct {
 
 type Exec struct {
 	letSeq int
+	expandQ bool // expand constant-range quantifiers in goals (package initializers)
+	storeChain map[string]storeRec // named array term -> the store that produced it (constant-index reads fold through it)
 	nogrowHit map[int]bool
 	p        *Prog
 	root     *ssa.Function
@@ -663,6 +665,9 @@ func (ex *Exec) loadLeaf(st *State, l Loc, t types.Type) *Val {
 		return ex.freshVal(t, "idxleaf")
 	}
 	sel := Select(c.T, combinedIndex(l))
+	if v, ok := ex.constSelect(c.T, combinedIndex(l)); ok {
+		sel = v
+	}
 	if isb {
 		return &Val{K: KScalar, Typ: t, T: Ne(sel, BVConst(0, 8))}
 	}
@@ -752,8 +757,44 @@ func (ex *Exec) storeLeaf(st *State, l Loc, v *Val, t types.Type) {
 	} else {
 		tv = v.T
 	}
-	na := ex.name(Store(c.T, combinedIndex(l), tv), "mem")
+	idx := combinedIndex(l)
+	na := ex.name(Store(c.T, idx, tv), "mem")
+	if ex.storeChain == nil {
+		ex.storeChain = map[string]storeRec{}
+	}
+	if na.S != c.T.S {
+		ex.storeChain[na.S] = storeRec{base: c.T, idx: idx, val: tv}
+	}
 	st.cells[l.Key()] = &Val{K: KArray, Elem: t, T: na}
+}
+
+type storeRec struct {
+	base, idx, val Term
+}
+
+// constSelect folds a read at a constant index through stores at constant indices (and the all-zero array).
+func (ex *Exec) constSelect(arr, idx Term) (Term, bool) {
+	if idx.Const == nil {
+		return Term{}, false
+	}
+	cur := arr
+	for steps := 0; steps < 1<<20; steps++ {
+		if r, ok := ex.storeChain[cur.S]; ok {
+			if r.idx.Const == nil {
+				return Term{}, false
+			}
+			if r.idx.Const.Cmp(idx.Const) == 0 {
+				return r.val, true
+			}
+			cur = r.base
+			continue
+		}
+		if strings.HasPrefix(cur.S, "((as const ") && strings.HasSuffix(cur.S, fmt.Sprintf(" (_ bv0 %d))", arr.Sort.W)) {
+			return BVConst(0, arr.Sort.W), true
+		}
+		return Term{}, false
+	}
+	return Term{}, false
 }
 
 // havocLoc replaces everything stored under location prefix l by fresh values.
